@@ -98,7 +98,12 @@ class BaseSession(SessionInterface, Generic[MessageT]):
 
     async def _get_selected(self, selected: SelectedMailbox) \
             -> MailboxDataInterface[MessageT]:
-        return await self._get_mailbox(selected.lookup)
+        mbx = await self._get_mailbox(selected.lookup)
+        if mbx.mailbox_id != selected.mailbox_id:
+            # the selected mailbox was deleted or renamed and another
+            # mailbox has taken its name since
+            raise MailboxNotFound(selected.lookup)
+        return mbx
 
     async def list_mailboxes(self, ref_name: str, filter_: str,
                              subscribed: bool = False,
@@ -154,6 +159,11 @@ class BaseSession(SessionInterface, Generic[MessageT]):
             raise MailboxNotFound(before_name) from exc
         except ValueError as exc:
             raise MailboxConflict(after_name) from exc
+        if selected and before_name == 'INBOX' \
+                and selected.lookup == before_name:
+            # a new, empty INBOX has taken the place of the selected one,
+            # the session finds out with its next command
+            return selected
         return await self._load_updates(selected, None)
 
     async def subscribe(self, name: str,
